@@ -140,7 +140,7 @@ Requires(s, o) ==
     [] OTHER                                    -> {}
 
 Adds(s, o) ==
-  CASE s = "ReadInput"                          -> {"atoms", "atomistic"}
+  CASE s = "ReadInput"                          -> {"atoms", "atomistic", "input-order"}
     [] s = "MakeBonds"                          -> {"bonds"}
     [] s = "AnnotateMutMod"                     -> {"requests"}
     [] s = "RepairGraph"                        -> {"canonical-names"}
@@ -223,6 +223,10 @@ ResidsRestoredLast     == Before(ResidUsers, {"RestoreResids"})
 WrittenOrderAtOutput   == \A i \in DOMAIN done : (done[i] = "WritePDB(deferred)" /\ o.go = "off") =>
                              \E j \in 1..(i - 1) : /\ done[j] = "SortMoleculeAtoms"
                                                     /\ \A k \in (j + 1)..(i - 1) : done[k] \notin {"VirtualSiteCreator", "RestoreResids", "MergeChains(set)", "MergeChains(all)", "MergeAllMolecules"}
+\* the atoms of every molecule stay in the order of the input until the mapping: merging at the atomistic level (Go model)
+\* renumbers the atoms in the order the molecules list them, and DoMapping orders the residues by their lowest atom
+InputOrderKept         == \A i \in DOMAIN done : done[i] \in {"MergeAllMolecules", "DoMapping"} => "input-order" \in facts
+                          \/ (\E j \in 1..(i-1) : done[j] = "DoMapping")
 OneNaming              == Cardinality({i \in DOMAIN done : done[i] \in {"NameMolType", "GoPipeline"}}) <= 1
 NamedWhenWritten       == (Finished /\ ~UsageError(o)) => "named" \in facts
 =============================================================================
